@@ -216,11 +216,38 @@ def rect_cases(tier):
                 cases.append({'nx': nx, 'ny': ny, 'nz': nz, 'convention': conv, 'atmos_type': atm,
                               'justify': just, 'case': case_, 'spaces': spaces})
                 k += 1
+    # custom character sets (single case, mixed case, repeats) x the case option: the set is folded to one case
+    # first and repeated characters are dropped afterwards, so 'bcBC' with case='u' is the two-character set 'BC'
+    k = 0
+    for chars in ('bcde', 'bcBC', 'bBcCdD', 'qwertyQWERTY', 'bcdbce'):
+        for (nx, ny) in [(1, 1), (2, 2), (3, 4), (5, 5), (8, 9), (12, 12)][:(4 if tier == 'quick' else 6)]:
+            for nz in (1, 3, 8, 30):
+                for case_ in (None, 'u', 'l'):
+                    conv = k % 4
+                    cases.append({'nx': nx, 'ny': ny, 'nz': nz, 'convention': conv, 'atmos_type': k % 3, 'justify': 'rl'[k % 2],
+                                  'case': case_, 'spaces': [True, False][(k // 2) % 2], 'chars': chars})
+                    k += 1
     return cases
 
 
+def effective_chars(c):
+    chars = c.get('chars')
+    if chars is None:
+        return None
+    if c['case'] == 'u':
+        chars = chars.upper()
+    elif c['case'] == 'l':
+        chars = chars.lower()
+    out = ''
+    for ch in chars:
+        if ch not in out:
+            out += ch
+    return out
+
+
 def expected_rect_error(c):
-    nchars = 26
+    eff = effective_chars(c)
+    nchars = 26 if eff is None else len(eff)
     nodes = (c['nx'] + 1) * (c['ny'] + 1)
     cols = c['nx'] * c['ny']
     _, ncap = capacity('node', c['convention'], nchars, c['spaces'])
@@ -228,7 +255,7 @@ def expected_rect_error(c):
     _, lcap = capacity('layer', c['convention'], nchars, c['spaces'])
     # one generated layer name is skipped when it equals the surface layer name
     skip = 0
-    lower = c['case'] in (None, 'l')
+    lower = c['case'] in (None, 'l') and eff is None        # (the custom sets used here cannot spell 'at' / 'atm')
     if c['convention'] == 2 and lower and c['spaces'] and c['nz'] >= 46:
         skip = 1            # 'at' is name number 46
     if c['convention'] == 1 and lower and c['spaces'] and c['nz'] >= 1 * 676 + 20 * 26 + 13:
@@ -243,9 +270,13 @@ def run_rect(ctx, spec):
     for c in spec['cases']:
         geo = None
         with ctx.guard(c, expected=(mg.NamingConventionError,)) as gd:
+            kw = {}
+            if c.get('chars') is not None:
+                kw['chars'] = c['chars']
+                ctx.count('custom_character_sets')
             geo = mg.mulgrid().rectangular([10.] * c['nx'], [10.] * c['ny'], [1.] * c['nz'], convention=c['convention'],
                                            atmos_type=c['atmos_type'], justify=c['justify'], case=c['case'],
-                                           spaces=c['spaces'])
+                                           spaces=c['spaces'], **kw)
         if gd.raised is not None and not isinstance(gd.raised, mg.NamingConventionError):
             continue
         ctx.evaluated()
@@ -262,6 +293,10 @@ def run_rect(ctx, spec):
         ctx.see('rect_outcome', 'built conv=%d atm=%d' % (c['convention'], c['atmos_type']))
         if exp_err:
             ctx.violation('no-naming-error:rectangular', 'rectangular built a geometry beyond the name space', c)
+            continue
+        if (geo.num_columns, geo.num_nodes, geo.num_layers) != (c['nx'] * c['ny'], (c['nx'] + 1) * (c['ny'] + 1), c['nz'] + 1):
+            ctx.violation('rectangular-lost-items', 'asked for %d columns, %d nodes, %d layers; the geometry has %d, %d, %d' % (
+                c['nx'] * c['ny'], (c['nx'] + 1) * (c['ny'] + 1), c['nz'] + 1, geo.num_columns, geo.num_nodes, geo.num_layers), c)
             continue
         check_geometry_names(ctx, geo, c)
 
